@@ -30,6 +30,7 @@ CONSTANTS Procs,        \* processes (factories)
           MaxOpFaults,  \* bound on injected faults per operation
           MaxRevokes,   \* bound on operator revocations
           CfgSet,       \* set of functions Procs -> [ik: {"none","session","shared"}, sk: BOOLEAN, sess: BOOLEAN]
+          OpKinds,      \* API calls explored: subset of {"Enc", "Dec", "CloseSession", "Restart"}
           Ticks,        \* clock increments the environment may choose
           MidOpTicks    \* TRUE: the clock may advance while operations are in flight
 
@@ -77,6 +78,7 @@ variables
   xc = [p \in Procs |-> NoCall];                         \* last external call
   cmd = NoCmd;                                           \* last command (API call or environment action)
   nfaults = 0; nrev = 0;
+  sft = [p \in Procs |-> -1];                          \* time of the last injected Store fault seen by each process
   viol = {};                                             \* names of property clauses violated by a completed operation
 
 define {
@@ -107,7 +109,7 @@ define {
 
   \* ---- the property clauses, evaluated when an operation returns (t = START time of the operation, DESIGN.md section 8)
   RevokedAtOf(k, part, cr) == {x[4] : x \in {y \in revAt : y[1] = k /\ y[2] = part /\ y[3] = cr}}
-  EncViolations(k, o, part) ==
+  EncViolations(k, o, part, lastSF) ==
     LET t == o.start IN
     (IF o.faults = 0 /\ ~IsKey(k) THEN {"C02.Recovers"} ELSE {})
     \cup (IF o.rec = 1 /\ o.calls # 0 THEN {"C20.ZeroCallsWhenFresh"} ELSE {})
@@ -117,10 +119,11 @@ define {
           \* C04: IK whose parent SK expired more than R ago
      \cup (IF ~o.sfault /\ t > k.parent + E + R THEN {IF k.dref THEN "C04.ParentExpiryBounded/decrypt-refresh" ELSE "C04.ParentExpiryBounded"} ELSE {})
           \* C05: IK revoked more than R ago and a later stamp exists
-     \cup (IF o.faults = 0 /\ Stamp(t) > k.created /\ \E tr \in RevokedAtOf("IK", part, k.created) : t > tr + R
+          \* (a replacement could be persisted: no Store fault hit this process since the revocation)
+     \cup (IF o.faults = 0 /\ Stamp(t) > k.created /\ \E tr \in RevokedAtOf("IK", part, k.created) : t > tr + R /\ lastSF < tr
            THEN {"C05.RevokedIKBounded"} ELSE {})
           \* C05: parent SK revoked more than 2R ago and later stamps exist for both
-     \cup (IF o.faults = 0 /\ Stamp(t) > k.created /\ Stamp(t) > k.parent /\ \E tr \in RevokedAtOf("SK", "-", k.parent) : t > tr + 2 * R
+     \cup (IF o.faults = 0 /\ Stamp(t) > k.created /\ Stamp(t) > k.parent /\ \E tr \in RevokedAtOf("SK", "-", k.parent) : t > tr + 2 * R /\ lastSF < tr
            THEN {IF k.dref THEN "C05.RevokedSKBounded/decrypt-refresh" ELSE "C05.RevokedSKBounded"} ELSE {}))
   DecViolations(ok, o, part, d) ==
     (IF o.faults = 0 /\ d.part = part /\ ~ok THEN {"C01.RoundTrip"} ELSE {})
@@ -129,6 +132,10 @@ define {
 
   FaultOpts(p, kinds) == {"none"} \cup (IF nfaults < MaxFaults /\ op[p].faults < MaxOpFaults THEN kinds ELSE {})
   Idle(p) == pc[p] = "idle"
+  \* labels whose step begins with an external call: the only points (besides idle) where the real code can be
+  \* observed / delayed from outside, hence the only points where the clock may advance inside an operation
+  CallLabels == {"gL", "gK", "s0", "sD", "sE", "sS", "sR", "sD2", "cS", "cR", "i0"}
+  AtCall(p) == pc[p] \in CallLabels \cup {"idle"}
 }
 
 macro Ext(kind, k, part, cr, f, res) {
@@ -136,6 +143,7 @@ macro Ext(kind, k, part, cr, f, res) {
   if (f # "none") {
     nfaults := nfaults + 1;
     op[self] := [op[self] EXCEPT !.faults = @ + 1, !.calls = @ + 1, !.sfault = @ \/ kind = "Store"];
+    if (kind = "Store") { sft[self] := now; };
   } else {
     op[self] := [op[self] EXCEPT !.calls = @ + 1];
   }
@@ -296,7 +304,7 @@ e1:  with (k = rv[self], o = op[self], d = [part |-> ep, ikCreated |-> rv[self].
        if (IsKey(k) /\ (d \in issued \/ Cardinality(issued) < MaxRecs)) { issued := issued \cup {d}; };
        ret[self] := [n |-> 1 - ret[self].n, kind |-> "Enc", ok |-> IsKey(k), part |-> ep, rec |-> d,
                      faults |-> o.faults, calls |-> o.calls, start |-> o.start];
-       viol := viol \cup EncViolations(k, o, ep);
+       viol := viol \cup EncViolations(k, o, ep, sft[self]);
      };
      op[self] := NoOp;
      return;
@@ -319,23 +327,26 @@ process (p \in Procs)
 {
 idle: while (TRUE) {
         either {
+          await "Enc" \in OpKinds;
           with (pt \in Parts) {
             op[self] := [NoOp EXCEPT !.kind = "Enc", !.part = pt, !.start = now,
-                             !.rec = IF FreshHit(self, "IK", pt, 0) /\ ~Invalid(Rd(self, "IK", pt, 0)) THEN 1 ELSE 0];
+                             !.rec = IF ~MidOpTicks /\ FreshHit(self, "IK", pt, 0) /\ ~Invalid(Rd(self, "IK", pt, 0)) THEN 1 ELSE 0];
             cmd := [NoCmd EXCEPT !.n = 1 - cmd.n, !.cmd = "Enc", !.p = self, !.part = pt];
             open[self] := open[self] \cup {pt};
             call Encrypt(pt);
           };
         } or {
+          await "Dec" \in OpKinds;
           with (pt \in Parts, ix \in issued) {
             op[self] := [NoOp EXCEPT !.kind = "Dec", !.part = pt, !.start = now,
-                             !.rec = IF ix.part = pt /\ FreshHit(self, "IK", pt, ix.ikCreated) THEN 1 ELSE 0];
+                             !.rec = IF ~MidOpTicks /\ ix.part = pt /\ FreshHit(self, "IK", pt, ix.ikCreated) THEN 1 ELSE 0];
             cmd := [NoCmd EXCEPT !.n = 1 - cmd.n, !.cmd = "Dec", !.p = self, !.part = pt, !.rec = ix];
             open[self] := open[self] \cup {pt};
             call Decrypt(pt, ix);
           };
         } or {
           \* Session.Close: a per-session IK cache dies with its session unless the session itself is cached
+          await "CloseSession" \in OpKinds;
           with (pt \in open[self]) {
             open[self] := open[self] \ {pt};
             cmd := [NoCmd EXCEPT !.n = 1 - cmd.n, !.cmd = "CloseSession", !.p = self, !.part = pt];
@@ -343,7 +354,7 @@ idle: while (TRUE) {
           };
         } or {
           \* SessionFactory.Close + NewSessionFactory: every cache is gone
-          await \E s \in Scopes : kc[self][s] # EmptyCache;
+          await "Restart" \in OpKinds /\ \E s \in Scopes : kc[self][s] # EmptyCache;
           kc[self] := [s \in Scopes |-> EmptyCache];
           open[self] := {};
           cmd := [NoCmd EXCEPT !.n = 1 - cmd.n, !.cmd = "Restart", !.p = self];
@@ -355,7 +366,7 @@ process (env = "env")
 {
 ev:   while (TRUE) {
         either {
-          await MidOpTicks \/ \A q \in Procs : Idle(q);
+          await (MidOpTicks /\ \A q \in Procs : AtCall(q)) \/ \A q \in Procs : Idle(q);
           with (d \in Ticks) {
             await now + d <= MaxT;
             now := now + d;
@@ -377,7 +388,7 @@ ev:   while (TRUE) {
 \* BEGIN TRANSLATION
 CONSTANT defaultInitValue
 VARIABLES pc, now, store, nextKid, issued, revAt, cfg, kc, open, op, ret, rv, 
-          xc, cmd, nfaults, nrev, viol, stack
+          xc, cmd, nfaults, nrev, sft, viol, stack
 
 (* define statement *)
 Recs(k, part) == {r \in store : r.k = k /\ r.part = part}
@@ -407,7 +418,7 @@ LoadMerge(c, id, cr, k, dref) ==
 
 
 RevokedAtOf(k, part, cr) == {x[4] : x \in {y \in revAt : y[1] = k /\ y[2] = part /\ y[3] = cr}}
-EncViolations(k, o, part) ==
+EncViolations(k, o, part, lastSF) ==
   LET t == o.start IN
   (IF o.faults = 0 /\ ~IsKey(k) THEN {"C02.Recovers"} ELSE {})
   \cup (IF o.rec = 1 /\ o.calls # 0 THEN {"C20.ZeroCallsWhenFresh"} ELSE {})
@@ -417,10 +428,11 @@ EncViolations(k, o, part) ==
 
    \cup (IF ~o.sfault /\ t > k.parent + E + R THEN {IF k.dref THEN "C04.ParentExpiryBounded/decrypt-refresh" ELSE "C04.ParentExpiryBounded"} ELSE {})
 
-   \cup (IF o.faults = 0 /\ Stamp(t) > k.created /\ \E tr \in RevokedAtOf("IK", part, k.created) : t > tr + R
+
+   \cup (IF o.faults = 0 /\ Stamp(t) > k.created /\ \E tr \in RevokedAtOf("IK", part, k.created) : t > tr + R /\ lastSF < tr
          THEN {"C05.RevokedIKBounded"} ELSE {})
 
-   \cup (IF o.faults = 0 /\ Stamp(t) > k.created /\ Stamp(t) > k.parent /\ \E tr \in RevokedAtOf("SK", "-", k.parent) : t > tr + 2 * R
+   \cup (IF o.faults = 0 /\ Stamp(t) > k.created /\ Stamp(t) > k.parent /\ \E tr \in RevokedAtOf("SK", "-", k.parent) : t > tr + 2 * R /\ lastSF < tr
          THEN {IF k.dref THEN "C05.RevokedSKBounded/decrypt-refresh" ELSE "C05.RevokedSKBounded"} ELSE {}))
 DecViolations(ok, o, part, d) ==
   (IF o.faults = 0 /\ d.part = part /\ ~ok THEN {"C01.RoundTrip"} ELSE {})
@@ -430,13 +442,17 @@ DecViolations(ok, o, part, d) ==
 FaultOpts(p, kinds) == {"none"} \cup (IF nfaults < MaxFaults /\ op[p].faults < MaxOpFaults THEN kinds ELSE {})
 Idle(p) == pc[p] = "idle"
 
+
+CallLabels == {"gL", "gK", "s0", "sD", "sE", "sS", "sR", "sD2", "cS", "cR", "i0"}
+AtCall(p) == pc[p] \in CallLabels \cup {"idle"}
+
 VARIABLES gk, gp, gcr, ekr, sk, ikr, skr, nsk, cp, csk, nik, cikr, ip, likr, 
           lkind, lp, lk, ep, dp, dr
 
 vars == << pc, now, store, nextKid, issued, revAt, cfg, kc, open, op, ret, rv, 
-           xc, cmd, nfaults, nrev, viol, stack, gk, gp, gcr, ekr, sk, ikr, 
-           skr, nsk, cp, csk, nik, cikr, ip, likr, lkind, lp, lk, ep, dp, dr
-        >>
+           xc, cmd, nfaults, nrev, sft, viol, stack, gk, gp, gcr, ekr, sk, 
+           ikr, skr, nsk, cp, csk, nik, cikr, ip, likr, lkind, lp, lk, ep, dp, 
+           dr >>
 
 ProcSet == (Procs) \cup {"env"}
 
@@ -456,6 +472,7 @@ Init == (* Global variables *)
         /\ cmd = NoCmd
         /\ nfaults = 0
         /\ nrev = 0
+        /\ sft = [p \in Procs |-> -1]
         /\ viol = {}
         (* Procedure GetOrLoad *)
         /\ gk = [ self \in ProcSet |-> defaultInitValue]
@@ -501,9 +518,9 @@ g0(self) == /\ pc[self] = "g0"
                   ELSE /\ pc' = [pc EXCEPT ![self] = "gL"]
                        /\ UNCHANGED << rv, stack, gk, gp, gcr, ekr >>
             /\ UNCHANGED << now, store, nextKid, issued, revAt, cfg, kc, open, 
-                            op, ret, xc, cmd, nfaults, nrev, viol, sk, ikr, 
-                            skr, nsk, cp, csk, nik, cikr, ip, likr, lkind, lp, 
-                            lk, ep, dp, dr >>
+                            op, ret, xc, cmd, nfaults, nrev, sft, viol, sk, 
+                            ikr, skr, nsk, cp, csk, nik, cikr, ip, likr, lkind, 
+                            lp, lk, ep, dp, dr >>
 
 gL(self) == /\ pc[self] = "gL"
             /\ \E f \in FaultOpts(self, {"err"}):
@@ -512,8 +529,12 @@ gL(self) == /\ pc[self] = "gL"
                  /\ IF f # "none"
                        THEN /\ nfaults' = nfaults + 1
                             /\ op' = [op EXCEPT ![self] = [op[self] EXCEPT !.faults = @ + 1, !.calls = @ + 1, !.sfault = @ \/ "Load" = "Store"]]
+                            /\ IF "Load" = "Store"
+                                  THEN /\ sft' = [sft EXCEPT ![self] = now]
+                                  ELSE /\ TRUE
+                                       /\ sft' = sft
                        ELSE /\ op' = [op EXCEPT ![self] = [op[self] EXCEPT !.calls = @ + 1]]
-                            /\ UNCHANGED nfaults
+                            /\ UNCHANGED << nfaults, sft >>
             /\ pc' = [pc EXCEPT ![self] = "gL2"]
             /\ UNCHANGED << now, store, nextKid, issued, revAt, cfg, kc, open, 
                             ret, rv, cmd, nrev, viol, stack, gk, gp, gcr, sk, 
@@ -532,9 +553,9 @@ gL2(self) == /\ pc[self] = "gL2"
                    ELSE /\ pc' = [pc EXCEPT ![self] = "g1"]
                         /\ UNCHANGED << rv, stack, gk, gp, gcr, ekr >>
              /\ UNCHANGED << now, store, nextKid, issued, revAt, cfg, kc, open, 
-                             op, ret, xc, cmd, nfaults, nrev, viol, sk, ikr, 
-                             skr, nsk, cp, csk, nik, cikr, ip, likr, lkind, lp, 
-                             lk, ep, dp, dr >>
+                             op, ret, xc, cmd, nfaults, nrev, sft, viol, sk, 
+                             ikr, skr, nsk, cp, csk, nik, cikr, ip, likr, 
+                             lkind, lp, lk, ep, dp, dr >>
 
 g1(self) == /\ pc[self] = "g1"
             /\ IF gk[self] = "SK"
@@ -553,9 +574,9 @@ g1(self) == /\ pc[self] = "g1"
                        /\ ekr' = [ekr EXCEPT ![self] = NoKey]
                        /\ pc' = [pc EXCEPT ![self] = "g0"]
             /\ UNCHANGED << now, store, nextKid, issued, revAt, cfg, kc, open, 
-                            op, ret, rv, xc, cmd, nfaults, nrev, viol, sk, ikr, 
-                            skr, nsk, cp, csk, nik, cikr, ip, likr, lkind, lp, 
-                            lk, ep, dp, dr >>
+                            op, ret, rv, xc, cmd, nfaults, nrev, sft, viol, sk, 
+                            ikr, skr, nsk, cp, csk, nik, cikr, ip, likr, lkind, 
+                            lp, lk, ep, dp, dr >>
 
 gK(self) == /\ pc[self] = "gK"
             /\ \E f \in FaultOpts(self, {"err"}):
@@ -564,8 +585,12 @@ gK(self) == /\ pc[self] = "gK"
                  /\ IF f # "none"
                        THEN /\ nfaults' = nfaults + 1
                             /\ op' = [op EXCEPT ![self] = [op[self] EXCEPT !.faults = @ + 1, !.calls = @ + 1, !.sfault = @ \/ "KmsDec" = "Store"]]
+                            /\ IF "KmsDec" = "Store"
+                                  THEN /\ sft' = [sft EXCEPT ![self] = now]
+                                  ELSE /\ TRUE
+                                       /\ sft' = sft
                        ELSE /\ op' = [op EXCEPT ![self] = [op[self] EXCEPT !.calls = @ + 1]]
-                            /\ UNCHANGED nfaults
+                            /\ UNCHANGED << nfaults, sft >>
             /\ pc' = [pc EXCEPT ![self] = "g3"]
             /\ UNCHANGED << now, store, nextKid, issued, revAt, cfg, kc, open, 
                             ret, cmd, nrev, viol, stack, gk, gp, gcr, ekr, sk, 
@@ -583,9 +608,9 @@ g2(self) == /\ pc[self] = "g2"
                   ELSE /\ pc' = [pc EXCEPT ![self] = "g2b"]
                        /\ UNCHANGED << stack, gk, gp, gcr, ekr >>
             /\ UNCHANGED << now, store, nextKid, issued, revAt, cfg, kc, open, 
-                            op, ret, rv, xc, cmd, nfaults, nrev, viol, sk, ikr, 
-                            skr, nsk, cp, csk, nik, cikr, ip, likr, lkind, lp, 
-                            lk, ep, dp, dr >>
+                            op, ret, rv, xc, cmd, nfaults, nrev, sft, viol, sk, 
+                            ikr, skr, nsk, cp, csk, nik, cikr, ip, likr, lkind, 
+                            lp, lk, ep, dp, dr >>
 
 g2b(self) == /\ pc[self] = "g2b"
              /\ /\ ikr' = [ikr EXCEPT ![self] = ekr[self]]
@@ -597,9 +622,9 @@ g2b(self) == /\ pc[self] = "g2b"
                                                      \o stack[self]]
              /\ pc' = [pc EXCEPT ![self] = "f0"]
              /\ UNCHANGED << now, store, nextKid, issued, revAt, cfg, kc, open, 
-                             op, ret, rv, xc, cmd, nfaults, nrev, viol, gk, gp, 
-                             gcr, ekr, skr, nsk, cp, csk, nik, cikr, ip, likr, 
-                             lkind, lp, lk, ep, dp, dr >>
+                             op, ret, rv, xc, cmd, nfaults, nrev, sft, viol, 
+                             gk, gp, gcr, ekr, skr, nsk, cp, csk, nik, cikr, 
+                             ip, likr, lkind, lp, lk, ep, dp, dr >>
 
 g3(self) == /\ pc[self] = "g3"
             /\ IF IsKey(rv[self]) /\ Cached(self, gk[self])
@@ -615,9 +640,9 @@ g3(self) == /\ pc[self] = "g3"
             /\ gcr' = [gcr EXCEPT ![self] = Head(stack[self]).gcr]
             /\ stack' = [stack EXCEPT ![self] = Tail(stack[self])]
             /\ UNCHANGED << now, store, nextKid, issued, revAt, cfg, open, op, 
-                            ret, xc, cmd, nfaults, nrev, viol, sk, ikr, skr, 
-                            nsk, cp, csk, nik, cikr, ip, likr, lkind, lp, lk, 
-                            ep, dp, dr >>
+                            ret, xc, cmd, nfaults, nrev, sft, viol, sk, ikr, 
+                            skr, nsk, cp, csk, nik, cikr, ip, likr, lkind, lp, 
+                            lk, ep, dp, dr >>
 
 GetOrLoad(self) == g0(self) \/ gL(self) \/ gL2(self) \/ g1(self)
                       \/ gK(self) \/ g2(self) \/ g2b(self) \/ g3(self)
@@ -639,9 +664,9 @@ f0(self) == /\ pc[self] = "f0"
                   ELSE /\ pc' = [pc EXCEPT ![self] = "f2"]
                        /\ UNCHANGED << stack, gk, gp, gcr, ekr >>
             /\ UNCHANGED << now, store, nextKid, issued, revAt, cfg, kc, open, 
-                            op, ret, rv, xc, cmd, nfaults, nrev, viol, sk, ikr, 
-                            skr, nsk, cp, csk, nik, cikr, ip, likr, lkind, lp, 
-                            lk, ep, dp, dr >>
+                            op, ret, rv, xc, cmd, nfaults, nrev, sft, viol, sk, 
+                            ikr, skr, nsk, cp, csk, nik, cikr, ip, likr, lkind, 
+                            lp, lk, ep, dp, dr >>
 
 f1(self) == /\ pc[self] = "f1"
             /\ IF ~IsKey(rv[self])
@@ -653,9 +678,9 @@ f1(self) == /\ pc[self] = "f1"
                        /\ pc' = [pc EXCEPT ![self] = "f2"]
                        /\ UNCHANGED << stack, ikr >>
             /\ UNCHANGED << now, store, nextKid, issued, revAt, cfg, kc, open, 
-                            op, ret, rv, xc, cmd, nfaults, nrev, viol, gk, gp, 
-                            gcr, ekr, skr, nsk, cp, csk, nik, cikr, ip, likr, 
-                            lkind, lp, lk, ep, dp, dr >>
+                            op, ret, rv, xc, cmd, nfaults, nrev, sft, viol, gk, 
+                            gp, gcr, ekr, skr, nsk, cp, csk, nik, cikr, ip, 
+                            likr, lkind, lp, lk, ep, dp, dr >>
 
 f2(self) == /\ pc[self] = "f2"
             /\ rv' = [rv EXCEPT ![self] = IF sk[self].kid = ikr[self].pkid THEN ikr[self] ELSE ErrKey]
@@ -664,9 +689,9 @@ f2(self) == /\ pc[self] = "f2"
             /\ ikr' = [ikr EXCEPT ![self] = Head(stack[self]).ikr]
             /\ stack' = [stack EXCEPT ![self] = Tail(stack[self])]
             /\ UNCHANGED << now, store, nextKid, issued, revAt, cfg, kc, open, 
-                            op, ret, xc, cmd, nfaults, nrev, viol, gk, gp, gcr, 
-                            ekr, skr, nsk, cp, csk, nik, cikr, ip, likr, lkind, 
-                            lp, lk, ep, dp, dr >>
+                            op, ret, xc, cmd, nfaults, nrev, sft, viol, gk, gp, 
+                            gcr, ekr, skr, nsk, cp, csk, nik, cikr, ip, likr, 
+                            lkind, lp, lk, ep, dp, dr >>
 
 IKFromEKR(self) == f0(self) \/ f1(self) \/ f2(self)
 
@@ -677,8 +702,12 @@ s0(self) == /\ pc[self] = "s0"
                  /\ IF f # "none"
                        THEN /\ nfaults' = nfaults + 1
                             /\ op' = [op EXCEPT ![self] = [op[self] EXCEPT !.faults = @ + 1, !.calls = @ + 1, !.sfault = @ \/ "LoadLatest" = "Store"]]
+                            /\ IF "LoadLatest" = "Store"
+                                  THEN /\ sft' = [sft EXCEPT ![self] = now]
+                                  ELSE /\ TRUE
+                                       /\ sft' = sft
                        ELSE /\ op' = [op EXCEPT ![self] = [op[self] EXCEPT !.calls = @ + 1]]
-                            /\ UNCHANGED nfaults
+                            /\ UNCHANGED << nfaults, sft >>
             /\ pc' = [pc EXCEPT ![self] = "s0b"]
             /\ UNCHANGED << now, store, nextKid, issued, revAt, cfg, kc, open, 
                             ret, rv, cmd, nrev, viol, stack, gk, gp, gcr, ekr, 
@@ -695,18 +724,19 @@ s0b(self) == /\ pc[self] = "s0b"
                    ELSE /\ pc' = [pc EXCEPT ![self] = "s1"]
                         /\ UNCHANGED << rv, stack, skr, nsk >>
              /\ UNCHANGED << now, store, nextKid, issued, revAt, cfg, kc, open, 
-                             op, ret, xc, cmd, nfaults, nrev, viol, gk, gp, 
-                             gcr, ekr, sk, ikr, cp, csk, nik, cikr, ip, likr, 
-                             lkind, lp, lk, ep, dp, dr >>
+                             op, ret, xc, cmd, nfaults, nrev, sft, viol, gk, 
+                             gp, gcr, ekr, sk, ikr, cp, csk, nik, cikr, ip, 
+                             likr, lkind, lp, lk, ep, dp, dr >>
 
 s1(self) == /\ pc[self] = "s1"
             /\ IF IsKey(skr[self]) /\ ~Invalid(skr[self])
                   THEN /\ pc' = [pc EXCEPT ![self] = "sD"]
                   ELSE /\ pc' = [pc EXCEPT ![self] = "sE"]
             /\ UNCHANGED << now, store, nextKid, issued, revAt, cfg, kc, open, 
-                            op, ret, rv, xc, cmd, nfaults, nrev, viol, stack, 
-                            gk, gp, gcr, ekr, sk, ikr, skr, nsk, cp, csk, nik, 
-                            cikr, ip, likr, lkind, lp, lk, ep, dp, dr >>
+                            op, ret, rv, xc, cmd, nfaults, nrev, sft, viol, 
+                            stack, gk, gp, gcr, ekr, sk, ikr, skr, nsk, cp, 
+                            csk, nik, cikr, ip, likr, lkind, lp, lk, ep, dp, 
+                            dr >>
 
 sD(self) == /\ pc[self] = "sD"
             /\ \E f \in FaultOpts(self, {"err"}):
@@ -715,8 +745,12 @@ sD(self) == /\ pc[self] = "sD"
                  /\ IF f # "none"
                        THEN /\ nfaults' = nfaults + 1
                             /\ op' = [op EXCEPT ![self] = [op[self] EXCEPT !.faults = @ + 1, !.calls = @ + 1, !.sfault = @ \/ "KmsDec" = "Store"]]
+                            /\ IF "KmsDec" = "Store"
+                                  THEN /\ sft' = [sft EXCEPT ![self] = now]
+                                  ELSE /\ TRUE
+                                       /\ sft' = sft
                        ELSE /\ op' = [op EXCEPT ![self] = [op[self] EXCEPT !.calls = @ + 1]]
-                            /\ UNCHANGED nfaults
+                            /\ UNCHANGED << nfaults, sft >>
             /\ pc' = [pc EXCEPT ![self] = Head(stack[self]).pc]
             /\ skr' = [skr EXCEPT ![self] = Head(stack[self]).skr]
             /\ nsk' = [nsk EXCEPT ![self] = Head(stack[self]).nsk]
@@ -735,8 +769,12 @@ sE(self) == /\ pc[self] = "sE"
                  /\ IF f # "none"
                        THEN /\ nfaults' = nfaults + 1
                             /\ op' = [op EXCEPT ![self] = [op[self] EXCEPT !.faults = @ + 1, !.calls = @ + 1, !.sfault = @ \/ "KmsEnc" = "Store"]]
+                            /\ IF "KmsEnc" = "Store"
+                                  THEN /\ sft' = [sft EXCEPT ![self] = now]
+                                  ELSE /\ TRUE
+                                       /\ sft' = sft
                        ELSE /\ op' = [op EXCEPT ![self] = [op[self] EXCEPT !.calls = @ + 1]]
-                            /\ UNCHANGED nfaults
+                            /\ UNCHANGED << nfaults, sft >>
                  /\ IF f # "none"
                        THEN /\ rv' = [rv EXCEPT ![self] = ErrKey]
                        ELSE /\ TRUE
@@ -756,9 +794,9 @@ sE2(self) == /\ pc[self] = "sE2"
                    ELSE /\ pc' = [pc EXCEPT ![self] = "sS"]
                         /\ UNCHANGED << stack, skr, nsk >>
              /\ UNCHANGED << now, store, nextKid, issued, revAt, cfg, kc, open, 
-                             op, ret, rv, xc, cmd, nfaults, nrev, viol, gk, gp, 
-                             gcr, ekr, sk, ikr, cp, csk, nik, cikr, ip, likr, 
-                             lkind, lp, lk, ep, dp, dr >>
+                             op, ret, rv, xc, cmd, nfaults, nrev, sft, viol, 
+                             gk, gp, gcr, ekr, sk, ikr, cp, csk, nik, cikr, ip, 
+                             likr, lkind, lp, lk, ep, dp, dr >>
 
 sS(self) == /\ pc[self] = "sS"
             /\ \E f \in FaultOpts(self, {"notWritten", "writtenFalse"}):
@@ -770,8 +808,12 @@ sS(self) == /\ pc[self] = "sS"
                  /\ IF f # "none"
                        THEN /\ nfaults' = nfaults + 1
                             /\ op' = [op EXCEPT ![self] = [op[self] EXCEPT !.faults = @ + 1, !.calls = @ + 1, !.sfault = @ \/ "Store" = "Store"]]
+                            /\ IF "Store" = "Store"
+                                  THEN /\ sft' = [sft EXCEPT ![self] = now]
+                                  ELSE /\ TRUE
+                                       /\ sft' = sft
                        ELSE /\ op' = [op EXCEPT ![self] = [op[self] EXCEPT !.calls = @ + 1]]
-                            /\ UNCHANGED nfaults
+                            /\ UNCHANGED << nfaults, sft >>
             /\ pc' = [pc EXCEPT ![self] = "sS2"]
             /\ UNCHANGED << now, nextKid, issued, revAt, cfg, kc, open, ret, 
                             rv, cmd, nrev, viol, stack, gk, gp, gcr, ekr, sk, 
@@ -788,9 +830,9 @@ sS2(self) == /\ pc[self] = "sS2"
                    ELSE /\ pc' = [pc EXCEPT ![self] = "sR"]
                         /\ UNCHANGED << rv, stack, skr, nsk >>
              /\ UNCHANGED << now, store, nextKid, issued, revAt, cfg, kc, open, 
-                             op, ret, xc, cmd, nfaults, nrev, viol, gk, gp, 
-                             gcr, ekr, sk, ikr, cp, csk, nik, cikr, ip, likr, 
-                             lkind, lp, lk, ep, dp, dr >>
+                             op, ret, xc, cmd, nfaults, nrev, sft, viol, gk, 
+                             gp, gcr, ekr, sk, ikr, cp, csk, nik, cikr, ip, 
+                             likr, lkind, lp, lk, ep, dp, dr >>
 
 sR(self) == /\ pc[self] = "sR"
             /\ \E f \in FaultOpts(self, {"err"}):
@@ -799,8 +841,12 @@ sR(self) == /\ pc[self] = "sR"
                  /\ IF f # "none"
                        THEN /\ nfaults' = nfaults + 1
                             /\ op' = [op EXCEPT ![self] = [op[self] EXCEPT !.faults = @ + 1, !.calls = @ + 1, !.sfault = @ \/ "LoadLatest" = "Store"]]
+                            /\ IF "LoadLatest" = "Store"
+                                  THEN /\ sft' = [sft EXCEPT ![self] = now]
+                                  ELSE /\ TRUE
+                                       /\ sft' = sft
                        ELSE /\ op' = [op EXCEPT ![self] = [op[self] EXCEPT !.calls = @ + 1]]
-                            /\ UNCHANGED nfaults
+                            /\ UNCHANGED << nfaults, sft >>
             /\ pc' = [pc EXCEPT ![self] = "sR2"]
             /\ UNCHANGED << now, store, nextKid, issued, revAt, cfg, kc, open, 
                             ret, rv, cmd, nrev, viol, stack, gk, gp, gcr, ekr, 
@@ -817,9 +863,9 @@ sR2(self) == /\ pc[self] = "sR2"
                    ELSE /\ pc' = [pc EXCEPT ![self] = "sD2"]
                         /\ UNCHANGED << rv, stack, skr, nsk >>
              /\ UNCHANGED << now, store, nextKid, issued, revAt, cfg, kc, open, 
-                             op, ret, xc, cmd, nfaults, nrev, viol, gk, gp, 
-                             gcr, ekr, sk, ikr, cp, csk, nik, cikr, ip, likr, 
-                             lkind, lp, lk, ep, dp, dr >>
+                             op, ret, xc, cmd, nfaults, nrev, sft, viol, gk, 
+                             gp, gcr, ekr, sk, ikr, cp, csk, nik, cikr, ip, 
+                             likr, lkind, lp, lk, ep, dp, dr >>
 
 sD2(self) == /\ pc[self] = "sD2"
              /\ \E f \in FaultOpts(self, {"err"}):
@@ -828,8 +874,12 @@ sD2(self) == /\ pc[self] = "sD2"
                   /\ IF f # "none"
                         THEN /\ nfaults' = nfaults + 1
                              /\ op' = [op EXCEPT ![self] = [op[self] EXCEPT !.faults = @ + 1, !.calls = @ + 1, !.sfault = @ \/ "KmsDec" = "Store"]]
+                             /\ IF "KmsDec" = "Store"
+                                   THEN /\ sft' = [sft EXCEPT ![self] = now]
+                                   ELSE /\ TRUE
+                                        /\ sft' = sft
                         ELSE /\ op' = [op EXCEPT ![self] = [op[self] EXCEPT !.calls = @ + 1]]
-                             /\ UNCHANGED nfaults
+                             /\ UNCHANGED << nfaults, sft >>
              /\ pc' = [pc EXCEPT ![self] = Head(stack[self]).pc]
              /\ skr' = [skr EXCEPT ![self] = Head(stack[self]).skr]
              /\ nsk' = [nsk EXCEPT ![self] = Head(stack[self]).nsk]
@@ -855,9 +905,9 @@ c0(self) == /\ pc[self] = "c0"
             /\ lk' = [lk EXCEPT ![self] = NoKey]
             /\ pc' = [pc EXCEPT ![self] = "l0"]
             /\ UNCHANGED << now, store, nextKid, issued, revAt, cfg, kc, open, 
-                            op, ret, rv, xc, cmd, nfaults, nrev, viol, gk, gp, 
-                            gcr, ekr, sk, ikr, skr, nsk, cp, csk, nik, cikr, 
-                            ip, likr, ep, dp, dr >>
+                            op, ret, rv, xc, cmd, nfaults, nrev, sft, viol, gk, 
+                            gp, gcr, ekr, sk, ikr, skr, nsk, cp, csk, nik, 
+                            cikr, ip, likr, ep, dp, dr >>
 
 c1(self) == /\ pc[self] = "c1"
             /\ IF ~IsKey(rv[self])
@@ -870,9 +920,9 @@ c1(self) == /\ pc[self] = "c1"
                   ELSE /\ pc' = [pc EXCEPT ![self] = "c2"]
                        /\ UNCHANGED << stack, cp, csk, nik, cikr >>
             /\ UNCHANGED << now, store, nextKid, issued, revAt, cfg, kc, open, 
-                            op, ret, rv, xc, cmd, nfaults, nrev, viol, gk, gp, 
-                            gcr, ekr, sk, ikr, skr, nsk, ip, likr, lkind, lp, 
-                            lk, ep, dp, dr >>
+                            op, ret, rv, xc, cmd, nfaults, nrev, sft, viol, gk, 
+                            gp, gcr, ekr, sk, ikr, skr, nsk, ip, likr, lkind, 
+                            lp, lk, ep, dp, dr >>
 
 c2(self) == /\ pc[self] = "c2"
             /\ nextKid <= MaxKids
@@ -881,9 +931,9 @@ c2(self) == /\ pc[self] = "c2"
             /\ nextKid' = nextKid + 1
             /\ pc' = [pc EXCEPT ![self] = "cS"]
             /\ UNCHANGED << now, store, issued, revAt, cfg, kc, open, op, ret, 
-                            rv, xc, cmd, nfaults, nrev, viol, stack, gk, gp, 
-                            gcr, ekr, sk, ikr, skr, nsk, cp, cikr, ip, likr, 
-                            lkind, lp, lk, ep, dp, dr >>
+                            rv, xc, cmd, nfaults, nrev, sft, viol, stack, gk, 
+                            gp, gcr, ekr, sk, ikr, skr, nsk, cp, cikr, ip, 
+                            likr, lkind, lp, lk, ep, dp, dr >>
 
 cS(self) == /\ pc[self] = "cS"
             /\ \E f \in FaultOpts(self, {"notWritten", "writtenFalse"}):
@@ -895,8 +945,12 @@ cS(self) == /\ pc[self] = "cS"
                  /\ IF f # "none"
                        THEN /\ nfaults' = nfaults + 1
                             /\ op' = [op EXCEPT ![self] = [op[self] EXCEPT !.faults = @ + 1, !.calls = @ + 1, !.sfault = @ \/ "Store" = "Store"]]
+                            /\ IF "Store" = "Store"
+                                  THEN /\ sft' = [sft EXCEPT ![self] = now]
+                                  ELSE /\ TRUE
+                                       /\ sft' = sft
                        ELSE /\ op' = [op EXCEPT ![self] = [op[self] EXCEPT !.calls = @ + 1]]
-                            /\ UNCHANGED nfaults
+                            /\ UNCHANGED << nfaults, sft >>
             /\ pc' = [pc EXCEPT ![self] = "cS2"]
             /\ UNCHANGED << now, nextKid, issued, revAt, cfg, kc, open, ret, 
                             rv, cmd, nrev, viol, stack, gk, gp, gcr, ekr, sk, 
@@ -915,9 +969,9 @@ cS2(self) == /\ pc[self] = "cS2"
                    ELSE /\ pc' = [pc EXCEPT ![self] = "cR"]
                         /\ UNCHANGED << rv, stack, cp, csk, nik, cikr >>
              /\ UNCHANGED << now, store, nextKid, issued, revAt, cfg, kc, open, 
-                             op, ret, xc, cmd, nfaults, nrev, viol, gk, gp, 
-                             gcr, ekr, sk, ikr, skr, nsk, ip, likr, lkind, lp, 
-                             lk, ep, dp, dr >>
+                             op, ret, xc, cmd, nfaults, nrev, sft, viol, gk, 
+                             gp, gcr, ekr, sk, ikr, skr, nsk, ip, likr, lkind, 
+                             lp, lk, ep, dp, dr >>
 
 cR(self) == /\ pc[self] = "cR"
             /\ \E f \in FaultOpts(self, {"err"}):
@@ -926,8 +980,12 @@ cR(self) == /\ pc[self] = "cR"
                  /\ IF f # "none"
                        THEN /\ nfaults' = nfaults + 1
                             /\ op' = [op EXCEPT ![self] = [op[self] EXCEPT !.faults = @ + 1, !.calls = @ + 1, !.sfault = @ \/ "LoadLatest" = "Store"]]
+                            /\ IF "LoadLatest" = "Store"
+                                  THEN /\ sft' = [sft EXCEPT ![self] = now]
+                                  ELSE /\ TRUE
+                                       /\ sft' = sft
                        ELSE /\ op' = [op EXCEPT ![self] = [op[self] EXCEPT !.calls = @ + 1]]
-                            /\ UNCHANGED nfaults
+                            /\ UNCHANGED << nfaults, sft >>
             /\ pc' = [pc EXCEPT ![self] = "cR2"]
             /\ UNCHANGED << now, store, nextKid, issued, revAt, cfg, kc, open, 
                             ret, rv, cmd, nrev, viol, stack, gk, gp, gcr, ekr, 
@@ -946,9 +1004,9 @@ cR2(self) == /\ pc[self] = "cR2"
                    ELSE /\ pc' = [pc EXCEPT ![self] = "c3"]
                         /\ UNCHANGED << rv, stack, cp, csk, nik, cikr >>
              /\ UNCHANGED << now, store, nextKid, issued, revAt, cfg, kc, open, 
-                             op, ret, xc, cmd, nfaults, nrev, viol, gk, gp, 
-                             gcr, ekr, sk, ikr, skr, nsk, ip, likr, lkind, lp, 
-                             lk, ep, dp, dr >>
+                             op, ret, xc, cmd, nfaults, nrev, sft, viol, gk, 
+                             gp, gcr, ekr, sk, ikr, skr, nsk, ip, likr, lkind, 
+                             lp, lk, ep, dp, dr >>
 
 c3(self) == /\ pc[self] = "c3"
             /\ /\ cikr' = [cikr EXCEPT ![self] = Head(stack[self]).cikr]
@@ -963,9 +1021,9 @@ c3(self) == /\ pc[self] = "c3"
                                                     \o Tail(stack[self])]
             /\ pc' = [pc EXCEPT ![self] = "f0"]
             /\ UNCHANGED << now, store, nextKid, issued, revAt, cfg, kc, open, 
-                            op, ret, rv, xc, cmd, nfaults, nrev, viol, gk, gp, 
-                            gcr, ekr, skr, nsk, cp, ip, likr, lkind, lp, lk, 
-                            ep, dp, dr >>
+                            op, ret, rv, xc, cmd, nfaults, nrev, sft, viol, gk, 
+                            gp, gcr, ekr, skr, nsk, cp, ip, likr, lkind, lp, 
+                            lk, ep, dp, dr >>
 
 CreateIK(self) == c0(self) \/ c1(self) \/ c2(self) \/ cS(self) \/ cS2(self)
                      \/ cR(self) \/ cR2(self) \/ c3(self)
@@ -977,8 +1035,12 @@ i0(self) == /\ pc[self] = "i0"
                  /\ IF f # "none"
                        THEN /\ nfaults' = nfaults + 1
                             /\ op' = [op EXCEPT ![self] = [op[self] EXCEPT !.faults = @ + 1, !.calls = @ + 1, !.sfault = @ \/ "LoadLatest" = "Store"]]
+                            /\ IF "LoadLatest" = "Store"
+                                  THEN /\ sft' = [sft EXCEPT ![self] = now]
+                                  ELSE /\ TRUE
+                                       /\ sft' = sft
                        ELSE /\ op' = [op EXCEPT ![self] = [op[self] EXCEPT !.calls = @ + 1]]
-                            /\ UNCHANGED nfaults
+                            /\ UNCHANGED << nfaults, sft >>
             /\ pc' = [pc EXCEPT ![self] = "i0b"]
             /\ UNCHANGED << now, store, nextKid, issued, revAt, cfg, kc, open, 
                             ret, rv, cmd, nrev, viol, stack, gk, gp, gcr, ekr, 
@@ -995,9 +1057,9 @@ i0b(self) == /\ pc[self] = "i0b"
                    ELSE /\ pc' = [pc EXCEPT ![self] = "i1"]
                         /\ UNCHANGED << rv, stack, ip, likr >>
              /\ UNCHANGED << now, store, nextKid, issued, revAt, cfg, kc, open, 
-                             op, ret, xc, cmd, nfaults, nrev, viol, gk, gp, 
-                             gcr, ekr, sk, ikr, skr, nsk, cp, csk, nik, cikr, 
-                             lkind, lp, lk, ep, dp, dr >>
+                             op, ret, xc, cmd, nfaults, nrev, sft, viol, gk, 
+                             gp, gcr, ekr, sk, ikr, skr, nsk, cp, csk, nik, 
+                             cikr, lkind, lp, lk, ep, dp, dr >>
 
 i1(self) == /\ pc[self] = "i1"
             /\ IF ~IsKey(likr[self]) \/ Invalid(likr[self])
@@ -1017,9 +1079,9 @@ i1(self) == /\ pc[self] = "i1"
                   ELSE /\ pc' = [pc EXCEPT ![self] = "i2"]
                        /\ UNCHANGED << stack, cp, csk, nik, cikr, likr >>
             /\ UNCHANGED << now, store, nextKid, issued, revAt, cfg, kc, open, 
-                            op, ret, rv, xc, cmd, nfaults, nrev, viol, gk, gp, 
-                            gcr, ekr, sk, ikr, skr, nsk, ip, lkind, lp, lk, ep, 
-                            dp, dr >>
+                            op, ret, rv, xc, cmd, nfaults, nrev, sft, viol, gk, 
+                            gp, gcr, ekr, sk, ikr, skr, nsk, ip, lkind, lp, lk, 
+                            ep, dp, dr >>
 
 i2(self) == /\ pc[self] = "i2"
             /\ /\ gcr' = [gcr EXCEPT ![self] = likr[self].parent]
@@ -1035,9 +1097,9 @@ i2(self) == /\ pc[self] = "i2"
             /\ ekr' = [ekr EXCEPT ![self] = NoKey]
             /\ pc' = [pc EXCEPT ![self] = "g0"]
             /\ UNCHANGED << now, store, nextKid, issued, revAt, cfg, kc, open, 
-                            op, ret, rv, xc, cmd, nfaults, nrev, viol, sk, ikr, 
-                            skr, nsk, cp, csk, nik, cikr, ip, likr, lkind, lp, 
-                            lk, ep, dp, dr >>
+                            op, ret, rv, xc, cmd, nfaults, nrev, sft, viol, sk, 
+                            ikr, skr, nsk, cp, csk, nik, cikr, ip, likr, lkind, 
+                            lp, lk, ep, dp, dr >>
 
 i3(self) == /\ pc[self] = "i3"
             /\ IF ~IsKey(rv[self]) \/ Invalid(rv[self])
@@ -1057,9 +1119,9 @@ i3(self) == /\ pc[self] = "i3"
                   ELSE /\ pc' = [pc EXCEPT ![self] = "i4"]
                        /\ UNCHANGED << stack, cp, csk, nik, cikr, likr >>
             /\ UNCHANGED << now, store, nextKid, issued, revAt, cfg, kc, open, 
-                            op, ret, rv, xc, cmd, nfaults, nrev, viol, gk, gp, 
-                            gcr, ekr, sk, ikr, skr, nsk, ip, lkind, lp, lk, ep, 
-                            dp, dr >>
+                            op, ret, rv, xc, cmd, nfaults, nrev, sft, viol, gk, 
+                            gp, gcr, ekr, sk, ikr, skr, nsk, ip, lkind, lp, lk, 
+                            ep, dp, dr >>
 
 i4(self) == /\ pc[self] = "i4"
             /\ /\ ikr' = [ikr EXCEPT ![self] = likr[self]]
@@ -1071,9 +1133,9 @@ i4(self) == /\ pc[self] = "i4"
                                                     \o stack[self]]
             /\ pc' = [pc EXCEPT ![self] = "f0"]
             /\ UNCHANGED << now, store, nextKid, issued, revAt, cfg, kc, open, 
-                            op, ret, rv, xc, cmd, nfaults, nrev, viol, gk, gp, 
-                            gcr, ekr, skr, nsk, cp, csk, nik, cikr, ip, likr, 
-                            lkind, lp, lk, ep, dp, dr >>
+                            op, ret, rv, xc, cmd, nfaults, nrev, sft, viol, gk, 
+                            gp, gcr, ekr, skr, nsk, cp, csk, nik, cikr, ip, 
+                            likr, lkind, lp, lk, ep, dp, dr >>
 
 i5(self) == /\ pc[self] = "i5"
             /\ IF ~IsKey(rv[self])
@@ -1093,9 +1155,9 @@ i5(self) == /\ pc[self] = "i5"
                   ELSE /\ pc' = [pc EXCEPT ![self] = "i6"]
                        /\ UNCHANGED << stack, cp, csk, nik, cikr, likr >>
             /\ UNCHANGED << now, store, nextKid, issued, revAt, cfg, kc, open, 
-                            op, ret, rv, xc, cmd, nfaults, nrev, viol, gk, gp, 
-                            gcr, ekr, sk, ikr, skr, nsk, ip, lkind, lp, lk, ep, 
-                            dp, dr >>
+                            op, ret, rv, xc, cmd, nfaults, nrev, sft, viol, gk, 
+                            gp, gcr, ekr, sk, ikr, skr, nsk, ip, lkind, lp, lk, 
+                            ep, dp, dr >>
 
 i6(self) == /\ pc[self] = "i6"
             /\ pc' = [pc EXCEPT ![self] = Head(stack[self]).pc]
@@ -1103,9 +1165,9 @@ i6(self) == /\ pc[self] = "i6"
             /\ ip' = [ip EXCEPT ![self] = Head(stack[self]).ip]
             /\ stack' = [stack EXCEPT ![self] = Tail(stack[self])]
             /\ UNCHANGED << now, store, nextKid, issued, revAt, cfg, kc, open, 
-                            op, ret, rv, xc, cmd, nfaults, nrev, viol, gk, gp, 
-                            gcr, ekr, sk, ikr, skr, nsk, cp, csk, nik, cikr, 
-                            lkind, lp, lk, ep, dp, dr >>
+                            op, ret, rv, xc, cmd, nfaults, nrev, sft, viol, gk, 
+                            gp, gcr, ekr, sk, ikr, skr, nsk, cp, csk, nik, 
+                            cikr, lkind, lp, lk, ep, dp, dr >>
 
 LoaderIK(self) == i0(self) \/ i0b(self) \/ i1(self) \/ i2(self) \/ i3(self)
                      \/ i4(self) \/ i5(self) \/ i6(self)
@@ -1117,9 +1179,9 @@ l0(self) == /\ pc[self] = "l0"
                   ELSE /\ pc' = [pc EXCEPT ![self] = "l1"]
                        /\ lk' = lk
             /\ UNCHANGED << now, store, nextKid, issued, revAt, cfg, kc, open, 
-                            op, ret, rv, xc, cmd, nfaults, nrev, viol, stack, 
-                            gk, gp, gcr, ekr, sk, ikr, skr, nsk, cp, csk, nik, 
-                            cikr, ip, likr, lkind, lp, ep, dp, dr >>
+                            op, ret, rv, xc, cmd, nfaults, nrev, sft, viol, 
+                            stack, gk, gp, gcr, ekr, sk, ikr, skr, nsk, cp, 
+                            csk, nik, cikr, ip, likr, lkind, lp, ep, dp, dr >>
 
 l1(self) == /\ pc[self] = "l1"
             /\ IF lkind[self] = "SK"
@@ -1142,9 +1204,9 @@ l1(self) == /\ pc[self] = "l1"
                        /\ pc' = [pc EXCEPT ![self] = "i0"]
                        /\ UNCHANGED << skr, nsk >>
             /\ UNCHANGED << now, store, nextKid, issued, revAt, cfg, kc, open, 
-                            op, ret, rv, xc, cmd, nfaults, nrev, viol, gk, gp, 
-                            gcr, ekr, sk, ikr, cp, csk, nik, cikr, lkind, lp, 
-                            lk, ep, dp, dr >>
+                            op, ret, rv, xc, cmd, nfaults, nrev, sft, viol, gk, 
+                            gp, gcr, ekr, sk, ikr, cp, csk, nik, cikr, lkind, 
+                            lp, lk, ep, dp, dr >>
 
 l2(self) == /\ pc[self] = "l2"
             /\ IF ~IsKey(rv[self]) \/ ~Cached(self, lkind[self])
@@ -1156,9 +1218,9 @@ l2(self) == /\ pc[self] = "l2"
                   ELSE /\ pc' = [pc EXCEPT ![self] = "l3"]
                        /\ UNCHANGED << stack, lkind, lp, lk >>
             /\ UNCHANGED << now, store, nextKid, issued, revAt, cfg, kc, open, 
-                            op, ret, rv, xc, cmd, nfaults, nrev, viol, gk, gp, 
-                            gcr, ekr, sk, ikr, skr, nsk, cp, csk, nik, cikr, 
-                            ip, likr, ep, dp, dr >>
+                            op, ret, rv, xc, cmd, nfaults, nrev, sft, viol, gk, 
+                            gp, gcr, ekr, sk, ikr, skr, nsk, cp, csk, nik, 
+                            cikr, ip, likr, ep, dp, dr >>
 
 l3(self) == /\ pc[self] = "l3"
             /\ LET m == LoadMerge(Cache(self, lkind[self], lp[self]), Id(lkind[self], lp[self]), 0, rv[self], FALSE) IN
@@ -1166,8 +1228,8 @@ l3(self) == /\ pc[self] = "l3"
                  /\ lk' = [lk EXCEPT ![self] = m.key]
             /\ pc' = [pc EXCEPT ![self] = "lInv"]
             /\ UNCHANGED << now, store, nextKid, issued, revAt, cfg, open, op, 
-                            ret, rv, xc, cmd, nfaults, nrev, viol, stack, gk, 
-                            gp, gcr, ekr, sk, ikr, skr, nsk, cp, csk, nik, 
+                            ret, rv, xc, cmd, nfaults, nrev, sft, viol, stack, 
+                            gk, gp, gcr, ekr, sk, ikr, skr, nsk, cp, csk, nik, 
                             cikr, ip, likr, lkind, lp, ep, dp, dr >>
 
 lInv(self) == /\ pc[self] = "lInv"
@@ -1181,9 +1243,9 @@ lInv(self) == /\ pc[self] = "lInv"
                     ELSE /\ pc' = [pc EXCEPT ![self] = "l4"]
                          /\ UNCHANGED << rv, stack, lkind, lp, lk >>
               /\ UNCHANGED << now, store, nextKid, issued, revAt, cfg, kc, 
-                              open, op, ret, xc, cmd, nfaults, nrev, viol, gk, 
-                              gp, gcr, ekr, sk, ikr, skr, nsk, cp, csk, nik, 
-                              cikr, ip, likr, ep, dp, dr >>
+                              open, op, ret, xc, cmd, nfaults, nrev, sft, viol, 
+                              gk, gp, gcr, ekr, sk, ikr, skr, nsk, cp, csk, 
+                              nik, cikr, ip, likr, ep, dp, dr >>
 
 l4(self) == /\ pc[self] = "l4"
             /\ IF lkind[self] = "SK"
@@ -1206,9 +1268,9 @@ l4(self) == /\ pc[self] = "l4"
                        /\ pc' = [pc EXCEPT ![self] = "i0"]
                        /\ UNCHANGED << skr, nsk >>
             /\ UNCHANGED << now, store, nextKid, issued, revAt, cfg, kc, open, 
-                            op, ret, rv, xc, cmd, nfaults, nrev, viol, gk, gp, 
-                            gcr, ekr, sk, ikr, cp, csk, nik, cikr, lkind, lp, 
-                            lk, ep, dp, dr >>
+                            op, ret, rv, xc, cmd, nfaults, nrev, sft, viol, gk, 
+                            gp, gcr, ekr, sk, ikr, cp, csk, nik, cikr, lkind, 
+                            lp, lk, ep, dp, dr >>
 
 l5(self) == /\ pc[self] = "l5"
             /\ IF IsKey(rv[self])
@@ -1223,9 +1285,9 @@ l5(self) == /\ pc[self] = "l5"
             /\ lp' = [lp EXCEPT ![self] = Head(stack[self]).lp]
             /\ stack' = [stack EXCEPT ![self] = Tail(stack[self])]
             /\ UNCHANGED << now, store, nextKid, issued, revAt, cfg, open, op, 
-                            ret, xc, cmd, nfaults, nrev, viol, gk, gp, gcr, 
-                            ekr, sk, ikr, skr, nsk, cp, csk, nik, cikr, ip, 
-                            likr, ep, dp, dr >>
+                            ret, xc, cmd, nfaults, nrev, sft, viol, gk, gp, 
+                            gcr, ekr, sk, ikr, skr, nsk, cp, csk, nik, cikr, 
+                            ip, likr, ep, dp, dr >>
 
 Latest(self) == l0(self) \/ l1(self) \/ l2(self) \/ l3(self) \/ lInv(self)
                    \/ l4(self) \/ l5(self)
@@ -1242,9 +1304,9 @@ e0(self) == /\ pc[self] = "e0"
             /\ lk' = [lk EXCEPT ![self] = NoKey]
             /\ pc' = [pc EXCEPT ![self] = "l0"]
             /\ UNCHANGED << now, store, nextKid, issued, revAt, cfg, kc, open, 
-                            op, ret, rv, xc, cmd, nfaults, nrev, viol, gk, gp, 
-                            gcr, ekr, sk, ikr, skr, nsk, cp, csk, nik, cikr, 
-                            ip, likr, ep, dp, dr >>
+                            op, ret, rv, xc, cmd, nfaults, nrev, sft, viol, gk, 
+                            gp, gcr, ekr, sk, ikr, skr, nsk, cp, csk, nik, 
+                            cikr, ip, likr, ep, dp, dr >>
 
 e1(self) == /\ pc[self] = "e1"
             /\ LET k == rv[self] IN
@@ -1256,15 +1318,15 @@ e1(self) == /\ pc[self] = "e1"
                                 /\ UNCHANGED issued
                      /\ ret' = [ret EXCEPT ![self] = [n |-> 1 - ret[self].n, kind |-> "Enc", ok |-> IsKey(k), part |-> ep[self], rec |-> d,
                                                       faults |-> o.faults, calls |-> o.calls, start |-> o.start]]
-                     /\ viol' = (viol \cup EncViolations(k, o, ep[self]))
+                     /\ viol' = (viol \cup EncViolations(k, o, ep[self], sft[self]))
             /\ op' = [op EXCEPT ![self] = NoOp]
             /\ pc' = [pc EXCEPT ![self] = Head(stack[self]).pc]
             /\ ep' = [ep EXCEPT ![self] = Head(stack[self]).ep]
             /\ stack' = [stack EXCEPT ![self] = Tail(stack[self])]
             /\ UNCHANGED << now, store, nextKid, revAt, cfg, kc, open, rv, xc, 
-                            cmd, nfaults, nrev, gk, gp, gcr, ekr, sk, ikr, skr, 
-                            nsk, cp, csk, nik, cikr, ip, likr, lkind, lp, lk, 
-                            dp, dr >>
+                            cmd, nfaults, nrev, sft, gk, gp, gcr, ekr, sk, ikr, 
+                            skr, nsk, cp, csk, nik, cikr, ip, likr, lkind, lp, 
+                            lk, dp, dr >>
 
 Encrypt(self) == e0(self) \/ e1(self)
 
@@ -1275,8 +1337,8 @@ d0(self) == /\ pc[self] = "d0"
                   ELSE /\ pc' = [pc EXCEPT ![self] = "d0b"]
                        /\ rv' = rv
             /\ UNCHANGED << now, store, nextKid, issued, revAt, cfg, kc, open, 
-                            op, ret, xc, cmd, nfaults, nrev, viol, stack, gk, 
-                            gp, gcr, ekr, sk, ikr, skr, nsk, cp, csk, nik, 
+                            op, ret, xc, cmd, nfaults, nrev, sft, viol, stack, 
+                            gk, gp, gcr, ekr, sk, ikr, skr, nsk, cp, csk, nik, 
                             cikr, ip, likr, lkind, lp, lk, ep, dp, dr >>
 
 d0b(self) == /\ pc[self] = "d0b"
@@ -1293,8 +1355,8 @@ d0b(self) == /\ pc[self] = "d0b"
              /\ ekr' = [ekr EXCEPT ![self] = NoKey]
              /\ pc' = [pc EXCEPT ![self] = "g0"]
              /\ UNCHANGED << now, store, nextKid, issued, revAt, cfg, kc, open, 
-                             op, ret, rv, xc, cmd, nfaults, nrev, viol, sk, 
-                             ikr, skr, nsk, cp, csk, nik, cikr, ip, likr, 
+                             op, ret, rv, xc, cmd, nfaults, nrev, sft, viol, 
+                             sk, ikr, skr, nsk, cp, csk, nik, cikr, ip, likr, 
                              lkind, lp, lk, ep, dp, dr >>
 
 d1(self) == /\ pc[self] = "d1"
@@ -1309,16 +1371,17 @@ d1(self) == /\ pc[self] = "d1"
             /\ dr' = [dr EXCEPT ![self] = Head(stack[self]).dr]
             /\ stack' = [stack EXCEPT ![self] = Tail(stack[self])]
             /\ UNCHANGED << now, store, nextKid, issued, revAt, cfg, kc, open, 
-                            rv, xc, cmd, nfaults, nrev, gk, gp, gcr, ekr, sk, 
-                            ikr, skr, nsk, cp, csk, nik, cikr, ip, likr, lkind, 
-                            lp, lk, ep >>
+                            rv, xc, cmd, nfaults, nrev, sft, gk, gp, gcr, ekr, 
+                            sk, ikr, skr, nsk, cp, csk, nik, cikr, ip, likr, 
+                            lkind, lp, lk, ep >>
 
 Decrypt(self) == d0(self) \/ d0b(self) \/ d1(self)
 
 idle(self) == /\ pc[self] = "idle"
-              /\ \/ /\ \E pt \in Parts:
+              /\ \/ /\ "Enc" \in OpKinds
+                    /\ \E pt \in Parts:
                          /\ op' = [op EXCEPT ![self] = [NoOp EXCEPT !.kind = "Enc", !.part = pt, !.start = now,
-                                                            !.rec = IF FreshHit(self, "IK", pt, 0) /\ ~Invalid(Rd(self, "IK", pt, 0)) THEN 1 ELSE 0]]
+                                                            !.rec = IF ~MidOpTicks /\ FreshHit(self, "IK", pt, 0) /\ ~Invalid(Rd(self, "IK", pt, 0)) THEN 1 ELSE 0]]
                          /\ cmd' = [NoCmd EXCEPT !.n = 1 - cmd.n, !.cmd = "Enc", !.p = self, !.part = pt]
                          /\ open' = [open EXCEPT ![self] = open[self] \cup {pt}]
                          /\ /\ ep' = [ep EXCEPT ![self] = pt]
@@ -1328,10 +1391,11 @@ idle(self) == /\ pc[self] = "idle"
                                                                  \o stack[self]]
                          /\ pc' = [pc EXCEPT ![self] = "e0"]
                     /\ UNCHANGED <<kc, dp, dr>>
-                 \/ /\ \E pt \in Parts:
+                 \/ /\ "Dec" \in OpKinds
+                    /\ \E pt \in Parts:
                          \E ix \in issued:
                            /\ op' = [op EXCEPT ![self] = [NoOp EXCEPT !.kind = "Dec", !.part = pt, !.start = now,
-                                                              !.rec = IF ix.part = pt /\ FreshHit(self, "IK", pt, ix.ikCreated) THEN 1 ELSE 0]]
+                                                              !.rec = IF ~MidOpTicks /\ ix.part = pt /\ FreshHit(self, "IK", pt, ix.ikCreated) THEN 1 ELSE 0]]
                            /\ cmd' = [NoCmd EXCEPT !.n = 1 - cmd.n, !.cmd = "Dec", !.p = self, !.part = pt, !.rec = ix]
                            /\ open' = [open EXCEPT ![self] = open[self] \cup {pt}]
                            /\ /\ dp' = [dp EXCEPT ![self] = pt]
@@ -1343,7 +1407,8 @@ idle(self) == /\ pc[self] = "idle"
                                                                    \o stack[self]]
                            /\ pc' = [pc EXCEPT ![self] = "d0"]
                     /\ UNCHANGED <<kc, ep>>
-                 \/ /\ \E pt \in open[self]:
+                 \/ /\ "CloseSession" \in OpKinds
+                    /\ \E pt \in open[self]:
                          /\ open' = [open EXCEPT ![self] = open[self] \ {pt}]
                          /\ cmd' = [NoCmd EXCEPT !.n = 1 - cmd.n, !.cmd = "CloseSession", !.p = self, !.part = pt]
                          /\ IF cfg[self].ik = "session" /\ ~cfg[self].sess
@@ -1352,21 +1417,21 @@ idle(self) == /\ pc[self] = "idle"
                                     /\ kc' = kc
                     /\ pc' = [pc EXCEPT ![self] = "idle"]
                     /\ UNCHANGED <<op, stack, ep, dp, dr>>
-                 \/ /\ \E s \in Scopes : kc[self][s] # EmptyCache
+                 \/ /\ "Restart" \in OpKinds /\ \E s \in Scopes : kc[self][s] # EmptyCache
                     /\ kc' = [kc EXCEPT ![self] = [s \in Scopes |-> EmptyCache]]
                     /\ open' = [open EXCEPT ![self] = {}]
                     /\ cmd' = [NoCmd EXCEPT !.n = 1 - cmd.n, !.cmd = "Restart", !.p = self]
                     /\ pc' = [pc EXCEPT ![self] = "idle"]
                     /\ UNCHANGED <<op, stack, ep, dp, dr>>
               /\ UNCHANGED << now, store, nextKid, issued, revAt, cfg, ret, rv, 
-                              xc, nfaults, nrev, viol, gk, gp, gcr, ekr, sk, 
-                              ikr, skr, nsk, cp, csk, nik, cikr, ip, likr, 
+                              xc, nfaults, nrev, sft, viol, gk, gp, gcr, ekr, 
+                              sk, ikr, skr, nsk, cp, csk, nik, cikr, ip, likr, 
                               lkind, lp, lk >>
 
 p(self) == idle(self)
 
 ev == /\ pc["env"] = "ev"
-      /\ \/ /\ MidOpTicks \/ \A q \in Procs : Idle(q)
+      /\ \/ /\ (MidOpTicks /\ \A q \in Procs : AtCall(q)) \/ \A q \in Procs : Idle(q)
             /\ \E d \in Ticks:
                  /\ now + d <= MaxT
                  /\ now' = now + d
@@ -1381,8 +1446,8 @@ ev == /\ pc["env"] = "ev"
             /\ now' = now
       /\ pc' = [pc EXCEPT !["env"] = "ev"]
       /\ UNCHANGED << nextKid, issued, cfg, kc, open, op, ret, rv, xc, nfaults, 
-                      viol, stack, gk, gp, gcr, ekr, sk, ikr, skr, nsk, cp, 
-                      csk, nik, cikr, ip, likr, lkind, lp, lk, ep, dp, dr >>
+                      sft, viol, stack, gk, gp, gcr, ekr, sk, ikr, skr, nsk, 
+                      cp, csk, nik, cikr, ip, likr, lkind, lp, lk, ep, dp, dr >>
 
 env == ev
 
@@ -1396,7 +1461,7 @@ Next == env
 Spec == Init /\ [][Next]_vars
 
 \* END TRANSLATION
-ViewVars == <<pc, now, store, nextKid, issued, revAt, cfg, kc, open, op, rv, nfaults, nrev, viol, stack, gk, gp, gcr, ekr, sk, ikr, skr, nsk, cp, csk, nik, cikr, ip, likr, lkind, lp, lk, ep, dp, dr>>
+ViewVars == <<pc, now, store, nextKid, issued, revAt, cfg, kc, open, op, rv, nfaults, nrev, sft, viol, stack, gk, gp, gcr, ekr, sk, ikr, skr, nsk, cp, csk, nik, cikr, ip, likr, lkind, lp, lk, ep, dp, dr>>
 -----------------------------------------------------------------------------
 \* The properties, stated on the model.
 
@@ -1419,6 +1484,12 @@ NoViolationAtAll == viol = {}
 \* C14: the SDK never modifies or removes a metastore record (only the operator flips revoked)
 InsertOnly == [][\A r \in store : \E r2 \in store' : r2.k = r.k /\ r2.part = r.part /\ r2.created = r.created
                                        /\ r2.kid = r.kid /\ r2.parent = r.parent /\ r2.pkid = r.pkid /\ (r.revoked => r2.revoked)]_store
+\* Partial-order reduction for multi-process configurations (ACTION_CONSTRAINT): the steps between two external calls are
+\* local (they touch no shared variable another process reads), so a process that is in the middle of local work runs
+\* on to its next external call before anyone else moves.  Sound for every property above; cuts the interleavings of
+\* silent steps.
+LocalStepsFirst == \A q \in Procs : ~AtCall(q) => pc'[q] # pc[q]
+
 \* C13/C14: one record per (id, created)
 UniqueKeys == \A r, s \in store : (r.k = s.k /\ r.part = s.part /\ r.created = s.created) => r = s
 =============================================================================
